@@ -315,7 +315,7 @@ def c_second_run_depends_only_on_itself(ti: int, i1: int, v1: int, g1: int, m1: 
   return _two_runs(ti, i1, v1, g1, m1, i1, _V2Q[w2], g2, m2)
 
 
-@cond(tiers=('thorough',), timeout=3000, split={'ti': (0, 99), 'v1': range(13), 'v2': range(7)})
+@cond(tiers=('thorough',), timeout=3000, split={'ti': (99,), 'v1': range(13), 'v2': range(7)})
 def c_second_run_full(ti: int, i1: int, v1: int, g1: int, m1: int, i2: int, v2: int, g2: int, m2: int) -> bool:
   """
   pre: ti in (0, 99)
